@@ -224,12 +224,15 @@ def judge(o: Outcome, c, e, ob):
             # the statement: the parent frame carries the enclosing template's title.  The enclosing template is
             # the page whose body holds the #invoke; every spelling of the route denotes that one page
             sp = written(c["route"])
+            stored_names = {ptitle} if c["route"]["colon"] else {ptitle, ptitle.removeprefix("Template:")}
             how = f"the call names it {{{{{sp}}}}}"
             if e["redirect"]:
                 how += (f", a redirect page ({conc(e['firstTitle'])!r} -> {ptitle!r}); the body that is expanded is the target's,"
                         " so the target is the enclosing template (MediaWiki reports the target's title as well)")
-            elif sp != ptitle:
+            elif conc(c["route"]["name"]) not in stored_names:
                 how += ", another spelling of the same page (first-letter case / underscore / namespace prefix)"
+            else:
+                how += ", its stored name"
             where = f"wrapper depth {c['depth']}" + (", reached through frame:expandTemplate" if c["via"] else "")
             if g == US + "nil":
                 why = f"frame:getParent() is nil inside the template {ptitle!r} ({how}; {where})"
@@ -238,7 +241,7 @@ def judge(o: Outcome, c, e, ob):
                        f"has the title {ptitle!r}; {how}; {where}")
             o.violation({**case, "what": what, "got": g, "specification": x, "stored_title_of_enclosing_template": ptitle,
                          "route_is_redirect": e["redirect"]}, why,
-                        cls="parent title/" + ("redirect" if e["redirect"] else "spelling" if sp != ptitle else "canonical")
+                        cls="parent title/" + ("redirect" if e["redirect"] else "spelling" if conc(c["route"]["name"]) not in stored_names else "canonical")
                         + ("/main namespace" if c["route"]["colon"] else "/template namespace"))
             continue
         if what == "parent args" and e["hasParent"]:
